@@ -50,6 +50,7 @@ WCase(p) ==
   LET n == Len(p.hs) + 3 IN
   [mem |-> WImage(p), al |-> 0,
    calls |-> <<[op |-> "load"], [op |-> "tags", it |-> 0], [op |-> "next", it |-> 0], [op |-> "size_hint", it |-> 0],
+               [op |-> "for_each", it |-> 0],                       \* a partially consumed iterator finished by for_each (on a copy)
                [op |-> "clone", it |-> 0, to |-> 1]>>
              \o <<[op |-> "last", it |-> 0], [op |-> "count", it |-> 0], [op |-> "clone", it |-> 0, to |-> 3], [op |-> "nth", it |-> 3, n |-> 1],
                   [op |-> "nth", it |-> 3, n |-> 0], [op |-> "nth", it |-> 3, n |-> 5], [op |-> "next", it |-> 3],
@@ -57,7 +58,7 @@ WCase(p) ==
                   [op |-> "tags", it |-> 4], [op |-> "nth", it |-> 4, n |-> 7], [op |-> "next", it |-> 4], [op |-> "count", it |-> 4]>>
              \o Rep([op |-> "next", it |-> 0], n) \o <<[op |-> "size_hint", it |-> 0]>>     \* also on an iterator that has panicked
              \o Rep([op |-> "next", it |-> 1], n)
-             \o <<[op |-> "module_tags", it |-> 2], [op |-> "size_hint", it |-> 2]>> \o Rep([op |-> "next", it |-> 2], n)
+             \o <<[op |-> "module_tags", it |-> 2], [op |-> "size_hint", it |-> 2], [op |-> "for_each", it |-> 2]>> \o Rep([op |-> "next", it |-> 2], n)
              \o <<[op |-> "size_hint", it |-> 2]>>
              \* a second load must change nothing: iterators made before stay valid, new ones start afresh; clone of a clone
              \o <<[op |-> "tags", it |-> 5], [op |-> "next", it |-> 5], [op |-> "load"], [op |-> "next", it |-> 5],
